@@ -225,6 +225,7 @@ def run(chk, runner_ok):
     fixed.grammar_but_two = True
     run_cases(chk, model, [fixed] + cases, "MATCHER-two-starstar", two=True)
     run_source_only(chk, model)
+    ml.run_equality(chk, model, chk.n(600, 6000))
     # ---- stateful: derived matchers created after their source was used ----------
     ml.run_stateful(chk, model, chk.n(500, 5000))
     # ---- a variable used in the pattern and again inside another variable's value ----
@@ -267,7 +268,7 @@ def run(chk, runner_ok):
         impl += [ml.impl_regex(a), ml.impl_match(a, path), ml.impl_sub(a, b, path)]
         reqs += [(1, sa), (2, sa + [pl]), (3, sa + sb + [pl])]
         m = impl[-2]
-        chk.hist("raw_match", "raise-%d" % m[1] if m[0] else ("match" if m[1] else "none"))
+        chk.hist("raw_match", "raise-%s" % (m[1],) if m[0] else ("match" if m[1] else "none"))
         if m[0] == 0 and m[1]:
             ml.check_prefix(chk, a, path, "raw")
     if model:
